@@ -365,3 +365,47 @@ func zzH_C18t() {
 	c.Close()
 	vReach("end")
 }
+
+// zzH_C18s: one target dies while another recovers within the same detector round (the number of
+// live targets stays the same, the set changes): afterwards calls go to the live set only, and the
+// recovered target is used.
+func zzH_C18s() {
+	rt := &zzRT{up: map[string]bool{"a": true, "b": true, "c": false}}
+	c := NewClient(nil)
+	c.Transport = rt
+	c.Scheduling = []Scheduling{RoundRobinScheduling, LeastTimeScheduling}[vChoose("policy", 2)]
+	vSetClockStep(1)
+	vSetTimerBudget(0)
+	vSetOneShotTimers(false)
+	c.Update("a", "b", "c")
+	vQuiesce()
+	if len(c.list) != 2 {
+		return
+	}
+	rt.up["a"] = false
+	for i := 0; i < 3; i++ {
+		c.Call("S.M", nil, nil) // the call that hits a fails and marks it
+	}
+	rt.up["c"] = true
+	c.detect()
+	vQuiesce()
+	c.detect()
+	vQuiesce()
+	n := len(rt.calls)
+	for i := 0; i < 4; i++ {
+		err := c.Call("S.M", nil, nil)
+		vAssert(err == nil, "calls-succeed-while-another-target-is-healthy")
+	}
+	usedC := false
+	for _, a := range rt.calls[n:] {
+		vAssert(a != "a", "refusing-target-receives-no-calls-after-detection")
+		if a == "c" {
+			usedC = true
+		}
+	}
+	if c.Scheduling == RoundRobinScheduling {
+		vAssert(usedC, "recovered-target-is-used-again")
+	}
+	c.Close()
+	vReach("end")
+}
